@@ -178,8 +178,8 @@ type recDB struct {
 	states []base.State
 }
 
-func (d *recDB) Close() error                  { return nil }
-func (d *recDB) Cancel() error                 { return nil }
+func (d *recDB) Close() error                     { return nil }
+func (d *recDB) Cancel() error                    { return nil }
 func (d *recDB) BlockMap() (base.BlockMap, error) { return nil, nil }
 func (d *recDB) SetBlockMap(base.BlockMap) error  { return nil }
 func (d *recDB) SetStates(sts []base.State) error {
@@ -198,7 +198,9 @@ func (d *recDB) SetSuffrageProof(base.SuffrageProof) error { return nil }
 func (d *recDB) SuffrageState() base.State                 { return nil }
 func (d *recDB) NetworkPolicy() base.NetworkPolicy         { return nil }
 func (d *recDB) Write() error                              { return nil }
-func (d *recDB) TempDatabase() (isaac.TempDatabase, error) { return nil, errors.Errorf("not supported") }
+func (d *recDB) TempDatabase() (isaac.TempDatabase, error) {
+	return nil, errors.Errorf("not supported")
+}
 
 // noisyProcessor delays Process (never PreProcess): perturbs the completion order of the worker jobs
 type noisyProcessor struct {
@@ -239,10 +241,11 @@ type Obs struct {
 	SuffrageHash string
 	// per proposal entry (proposal operations, then the voteproof's expels in Expels() order):
 	// 0 = no slot in the operations tree, 1 = not in state, 2 = in state
-	Slots    []int
-	OpsLeafs []string // leaves of the operations tree in index order: key + "|" + reason
-	StLeafs  []string // leaves of the states tree in index order
-	StKeys   []string // state key at each index of the states tree
+	Slots     []int
+	LeafEntry []int    // the proposal entry each leaf of the operations tree belongs to
+	OpsLeafs  []string // leaves of the operations tree in index order: key + "|" + reason
+	StLeafs   []string // leaves of the states tree in index order
+	StKeys    []string // state key at each index of the states tree
 	// resulting values
 	SufChanged   bool
 	SufHeight    int64
@@ -258,8 +261,27 @@ type Obs struct {
 	SufStateHash string
 }
 
+// NewProposal builds (and signs) the proposal carrying the case's operations in the given order.  Its
+// ProposedAt is the wall clock: runs that must produce the same manifest share one proposal.
+func (c *Case) NewProposal(order []int) base.ProposalSignFact {
+	ophs := make([][2]util.Hash, len(order))
+	for i, j := range order {
+		ophs[i] = [2]util.Hash{c.Ops[j].Op.Hash(), c.Ops[j].Op.Fact().Hash()}
+	}
+	point := base.RawPoint(int64(c.Height), 0)
+	fact := isaac.NewProposalFact(point, c.Members[0].Addr, c.prevManifest.Hash(), ophs)
+	pr := isaac.NewProposalSignFact(fact)
+	if err := pr.Sign(c.Members[0].Priv, NetworkID); err != nil {
+		panic(err)
+	}
+	return pr
+}
+
 // Run processes the case once with the given proposal-operation order.
-func (c *Case) Run(order []int, sc Sched) (obs Obs) {
+func (c *Case) Run(order []int, sc Sched) Obs { return c.RunProposal(c.NewProposal(order), order, sc) }
+
+// RunProposal processes the given proposal (made by NewProposal(order)) once under the schedule sc.
+func (c *Case) RunProposal(pr base.ProposalSignFact, order []int, sc Sched) (obs Obs) {
 	defer func() {
 		if r := recover(); r != nil {
 			obs.Err = fmt.Sprintf("panic: %v", r)
@@ -295,18 +317,11 @@ func (c *Case) Run(order []int, sc Sched) (obs Obs) {
 		ops[i] = c.Ops[j]
 	}
 	byhash := map[string]Op{}
-	ophs := make([][2]util.Hash, len(ops))
-	for i, o := range ops {
-		ophs[i] = [2]util.Hash{o.Op.Hash(), o.Op.Fact().Hash()}
+	for _, o := range ops {
 		byhash[o.Op.Hash().String()] = o
 	}
 
 	point := base.RawPoint(int64(c.Height), 0)
-	fact := isaac.NewProposalFact(point, c.Members[0].Addr, c.prevManifest.Hash(), ophs)
-	pr := isaac.NewProposalSignFact(fact)
-	if err := pr.Sign(c.Members[0].Priv, NetworkID); err != nil {
-		panic(err)
-	}
 
 	var ivp base.INITVoteproof
 	var expelops []base.SuffrageExpelOperation
@@ -452,6 +467,7 @@ func (c *Case) Run(order []int, sc Sched) (obs Obs) {
 				obs.Err = "operations tree leaf does not follow the proposal order: " + on.Key()
 				return obs
 			}
+			obs.LeafEntry = append(obs.LeafEntry, e)
 			if on.InState() {
 				obs.Slots[e] = 2
 			} else {
